@@ -152,9 +152,12 @@ def run(ctx):
     fmts = {e["value"] if e.kind == "RETURN" else None for p in ph for e in p.events if False}
     widths = set()
     for p in ph:
-        for t in [p.env.get("fmt")]:
-            if t is not None and t[0] == "fmt" and N.is_const(t[1]):
-                widths.add((t[1][2], t[2]))
+        # the line format: the format string that is applied to (offset, hex text, raw text) inside the loop
+        for e in p.events:
+            if e.kind == "MUT" and e["method"] == "append" and e.loops and e["args"] and e["args"][0][0] == "fmt":
+                t = e["args"][0][1]
+                if t[0] == "fmt" and N.is_const(t[1]):
+                    widths.add((t[1][2], t[2]))
     want_w = ("tuple", (N.mk_add(N.mk_mul(N.const(3), ls), N.const(1), -1),))
     good = len(widths) >= 2
     for text, arg in widths:
